@@ -5,6 +5,7 @@ import (
 	"fmt"
 	"io"
 	"net"
+	"time"
 
 	"github.com/cbeuw/Cloak/internal/common"
 	mux "github.com/cbeuw/Cloak/internal/multiplex"
@@ -357,7 +358,31 @@ func runC04Mixed(c *Ctx, scAny any) {
 	}
 	if end == simsync.EndQuiescent && !wl.done() {
 		c.Fail("stream-liveness", "stuck", "final quiescence with undelivered data between Cloak and the reference peer (ref_server=%v)\n%s", sc.RefServer, c.W.DumpTasks())
+		return
 	}
+	if end != simsync.EndDone {
+		return
+	}
+	// the last message of a session: Cloak closes, and the notice it sends must
+	// decode under the session key like every other message
+	closed := false
+	simsync.Go("h:close", func() { sesh.Close(); closed = true })
+	c.Drive(func() bool { return closed && c.Net.Idle() })
+	settled := false
+	simsync.Go("h:settle", func() { Sleep(time.Second); settled = true })
+	c.Drive(func() bool { return settled })
+	if c.Failed() {
+		return
+	}
+	if peer.Err != nil && !peer.SessionCloseSeen {
+		c.Fail("codec", "wire-format:close-notice", "Cloak closed its session; the reference peer could not make sense of what it sent last: %v", peer.Err)
+		return
+	}
+	if !peer.SessionCloseSeen {
+		c.Fail("codec", "close-notice-missing", "Cloak closed its session but the reference peer never received a session-closing message")
+		return
+	}
+	c.Probe("close_notice_decoded")
 }
 
 func init() {
